@@ -375,7 +375,14 @@ Section Num.
       match stk st with
       | [] =>
         if (0 <? lvl st)%Z then Stop (IErr "nil node at depth > 0")
-        else Cont (mkS [mkF "" [] [] None] (droot st) (lvl st + 1)%Z (Some OPENPAR) (perr st)) r
+        else
+          (* fix 98ea38b: "if nnodes > 0": a root may only be created while no node exists.
+             The first node is the root and the stack then stays non-empty until the root is
+             popped, so with an empty stack "a node exists" is "[droot] is set" *)
+          match droot st with
+          | Some _ => Stop (IErr "newick Error: An open parenthesis after the end of the tree")
+          | None => Cont (mkS [mkF "" [] [] None] (droot st) (lvl st + 1)%Z (Some OPENPAR) (perr st)) r
+          end
       | _ :: _ =>
         if (lvl st =? 0)%Z then Stop (IErr "newick Error: An open parenthesis while the stack is empty")
         else Cont (mkS (mkF "" [] [None] (Some e0) :: stk st) (droot st) (lvl st + 1)%Z (Some OPENPAR) (perr st)) r
